@@ -21,13 +21,12 @@ package common
 // ───────────── sums ─────────────
 
 //@ rec SumIn(s any, tx *Transaction, n int) mathint = n <= 0 ? 0 : SumIn(s, tx, n - 1) + StoreAmount(s, tx.Inputs[n - 1].Hash, tx.Inputs[n - 1].Index)
-//@ rec SumOut(tx *Transaction, n int) mathint = n <= 0 ? 0 : SumOut(tx, n - 1) + val(tx.Outputs[n - 1].Amount)
+//@ -- SumOut(outs, n): the sum of the first n output amounts — defined in zz_contracts_c17_verif.go (shared with C15/C17), used here as SumOut(tx.Outputs, n)
 //@ -- congruence theorem (ext_induct.go): the sums do not change when the heap changes elsewhere (Validate fills ver.hash, which lives in the
 //@ -- same heap component as the input hashes)
 //@ recframe SumIn
-//@ recframe SumOut
 //@ -- reclimit (ext_induct.go): one unfolding per existing term instead of the unbounded chain Sum(n), Sum(n-1), ... for a symbolic n
-//@ reclimit SumIn, SumOut
+//@ reclimit SumIn
 
 // ───────────── ordinary inputs ─────────────
 // OrdInput is what validateInputs itself tests (len(Genesis) == 0); on a decoded transaction (NilIfEmpty(Genesis), C06) it coincides
